@@ -2,11 +2,16 @@ package raft
 
 import (
 	"context";
+	"strconv";
+	"strings";
 
 	pb "github.com/marekgalovic/anndb/protobuf";
 
 	"github.com/golang/protobuf/proto";
 )
+
+// Snapshot entries with this name prefix carry member addresses (not consumer data)
+const nodeAddressSnapshotPrefix = "@node/"
 
 // Shared group
 type sharedGroup struct {
@@ -60,7 +65,17 @@ func (this *sharedGroup) processSnapshot(data []byte) error {
 	}
 
 	for proxyName, proxySnapshot := range snapshot.GetProxySnapshots() {
-		proxy := this.proxies[proxyName]
+		if strings.HasPrefix(proxyName, nodeAddressSnapshotPrefix) {
+			// Member addresses: the conf change entries that announced them are compacted away
+			if nodeId, err := strconv.ParseUint(strings.TrimPrefix(proxyName, nodeAddressSnapshotPrefix), 10, 64); err == nil {
+				this.group.transport.addNodeAddress(nodeId, string(proxySnapshot))
+			}
+			continue
+		}
+		proxy, exists := this.proxies[proxyName]
+		if !exists || proxy.processSnapshotFn == nil {
+			continue
+		}
 		if err := proxy.processSnapshotFn(proxySnapshot); err != nil {
 			return err
 		}
@@ -78,6 +93,10 @@ func (this *sharedGroup) snapshot() ([]byte, error) {
 				return nil, err
 			}
 		}
+	}
+
+	for nodeId, address := range this.group.transport.clusterConn.Nodes() {
+		proxySnapshots[nodeAddressSnapshotPrefix+strconv.FormatUint(nodeId, 10)] = []byte(address)
 	}
 
 	return proto.Marshal(&pb.SharedGroupSnapshot{ProxySnapshots: proxySnapshots})
